@@ -332,10 +332,19 @@ func recordEnum(cp *conc.Corpus, pkg *reg.Pkg, variant, pos string, want map[str
 		}
 		if cls == "zero" {
 			// the UNSET value in a tree: no update for the leaf in the notifications
-			ns, nerr := ygot.TogNMINotifications(root, 1, ygot.GNMINotificationsConfig{UsePathElem: true})
+			var ns []*gpb.Notification
+			nerr, npan := guard(func() error {
+				var err error
+				ns, err = ygot.TogNMINotifications(root, 1, ygot.GNMINotificationsConfig{UsePathElem: true})
+				return err
+			})
 			o.TV = "absent"
 			if nerr != nil {
 				o.TV = "error"
+			}
+			if npan != "" {
+				o.TV = "panic"
+				res.Violate("C20", map[string]string{"conjunct": "panic", "api": "TogNMINotifications", "type": rec.Type}, "TogNMINotifications panicked on a tree holding the UNSET value of "+rec.Type+": "+firstLine(npan), nil)
 			}
 			for _, n := range ns {
 				for _, u := range n.Update {
